@@ -124,8 +124,10 @@ def main():
         meta['history'] = json.load(open(notes_p)).get(sid, 'reported by its own property check as built (no strengthening needed)')
     d = os.path.join(VERIF, 'seeded', sid)
     os.makedirs(d, exist_ok=True)
-    shutil.copy(diff, os.path.join(d, 'patch.diff'))
-    shutil.copy(demo, os.path.join(d, 'demo.rs'))
+    if os.path.abspath(diff) != os.path.join(d, 'patch.diff'):
+        shutil.copy(diff, os.path.join(d, 'patch.diff'))
+    if os.path.abspath(demo) != os.path.join(d, 'demo.rs'):
+        shutil.copy(demo, os.path.join(d, 'demo.rs'))
     json.dump(meta, open(os.path.join(d, 'meta.json'), 'w'), indent=1)
     print(json.dumps({k: meta[k] for k in ('id', 'confirmed', 'checks')}, indent=1)[:2500])
     return 0
